@@ -51,7 +51,7 @@ def spec(roots, files, base):
         return out
     search = []   # directories in search order; inside one root the relative order does not matter for these trees
     for r in roots:
-        ds = [d for d in dirs_of(r) if not any(part.endswith('.d') for part in d[len(r):].split('/'))]
+        ds = list(dirs_of(r))   # every sub-directory counts, whatever its name (a drop-in directory is a sub-directory too)
         search.append(sorted(ds, key=lambda d: (d.count('/'), d)))
     flat = [d for ds in search for d in ds]
     exp = {}
